@@ -25,6 +25,7 @@ sufficiently large compared to the (public upper bound on the) degree" (module d
 `_degree` / `to_bits`) -- every operation that uses the secret degree is generated only for p >= 61 (length
 bounds <= 8, intermediate lengths <= 15); ring operations are generated for every prime p > m (p = 2, 3, 5, ...).
 """
+import random
 import traceback
 from hypothesis import strategies as st
 from vlib.boot import boot
@@ -58,7 +59,7 @@ for _p in SMALL_P + MED_P + BIG_P:
 
 
 def budget(tier):
-    return dict(shards=16, examples=45 if tier == "quick" else 900)
+    return dict(shards=16, examples=45 if tier == "quick" else 800)
 
 
 # ------------------------------------------------------------------------------------------ operations
@@ -172,6 +173,11 @@ def _in_f38e(p, c):
     return bool(poly.is_irreducible(poly(list(c[:d + 1]))))
 
 
+def _in_f38j(rec):
+    n = len(rec['a']['c'])
+    return n >= 1 and any(x >= 2**63 or (n >= 2 and x >= 2 and x ** (n - 1) >= 2**63) for x in rec['x'])
+
+
 def known_class(rec, p=None):
     """Id of the known finding whose class this record belongs to (None otherwise).
 
@@ -184,6 +190,11 @@ def known_class(rec, p=None):
     F38g  // % divmod mod powmod for a prime p > 2^63 (always for 64-bit p, with probability about (2^64/p)^len for
           larger p): `np.array(u)` in secpoly._div (no dtype=object) turns the Python ints of the public inverse into
           float64/uint64 when none of them needs more than 64 bits -> wrong quotient (usually 0)
+    F38i  (outcome-defined, see _run_case) gcdext returns the right monic gcd and a VALID Bezout pair u*a + v*b = g that
+          is not the reduced pair gfpx returns (deg u = deg(b/g) instead of < deg(b/g)); everything else of such a case
+          is still checked
+    F38j  evaluation f(x) at a PUBLIC int x with x^(len-1) >= 2^63: __call__ builds np.vander(np.array([x]), n) in int64
+          (silent overflow -> wrong value) or, for x >= 2^63, in uint64/float64 (TypeError in the matmul)
     F38h  == with a public gfpx polynomial over GF(2): secpoly(<gfpx polynomial>) calls value._to_list(value), which for
           GF(2)[x] yields polynomial objects instead of ints; indexing a single entry (np.all -> np_prod -> a[0]) fails
     F38f  monic() of a secret zero polynomial of length >= 1, gcd/gcdext of two secret zero polynomials: 1/0 in
@@ -209,6 +220,8 @@ def known_class(rec, p=None):
         return 'F38f'
     if name == 'eq_pub' and p == 2 and rec['pb']:
         return 'F38h'
+    if name == 'call_pub' and _in_f38j(rec):
+        return 'F38j'
     if name in DIV_OPS and p is not None and 64 <= p.bit_length() <= 72 and not (name == 'powmod' and rec['n'] in (0, 1)):
         return 'F38g'
     return None
@@ -265,9 +278,10 @@ def _make_coprime(p, a, b):
 
 @st.composite
 def _gen_record(draw, p, m, allowed, small_len):
-    name = draw(st.sampled_from(allowed))
-    if name == 'eq_pub' and p == 2 and draw(st.integers(0, 19)) > 0:
-        name = 'eq'     # F38h
+    # uniform choice of the operation: PRNG seeded by a drawn integer (sampled_from favours the first entries)
+    name = random.Random(draw(st.integers(0, 2**64 - 1))).choice(allowed)
+    if name == 'eq_pub' and p == 2:
+        name = 'eq'     # F38h (emitted alone by _known_case)
     sig = OPS[name][0]
     mx = 5 if small_len else 8
     rec = {'op': name}
@@ -294,6 +308,10 @@ def _gen_record(draw, p, m, allowed, small_len):
     if sig == 'ux':
         rec['x'] = [draw(_coef(p)), draw(_coef(p))]
         rec['xs'] = draw(st.integers(0, 6))
+        if name == 'call_pub' and _in_f38j(rec):
+            n = len(rec['a']['c'])
+            lim = int((2**63 - 1) ** (1 / max(n - 1, 1))) - 1 if n >= 2 else 2**63 - 1   # F38j beyond
+            rec['x'] = [min(x, lim, p - 1) for x in rec['x']]
     if sig == 'uio':
         rec['recv'] = draw(st.lists(st.integers(0, 6), min_size=1, max_size=3))
     if sig in ('bin', 'binc'):
@@ -333,17 +351,20 @@ def _gen_record(draw, p, m, allowed, small_len):
         mg = 4 if small_len else 6
         rec['a'] = draw(_spoly(p, maxlen=mg))
         rec['b'] = draw(_spoly(p, maxlen=mg))
-        if draw(st.booleans()) and rec['a']['c']:
-            # equal public lengths and full secret degrees: the case that needs all 2d-1 division steps
-            n = len(rec['a']['c'])
-            rec['b'] = draw(_spoly(p, minlen=n, maxlen=n))
+        mode = draw(st.sampled_from(['free', 'full', 'full', 'planted']))
+        if mode == 'full':
+            # equal public lengths, full secret degrees, generic coefficients: needs all 2d-1 division steps
+            n = draw(st.integers(1, mg))
             for r in ('a', 'b'):
+                rec[r] = {'s': rec[r]['s']}
                 for key in ('c', 'alt'):
-                    if draw(st.integers(0, 3)) > 0:
-                        rec[r][key][-1] = rec[r][key][-1] or 1
+                    c = draw(st.lists(st.integers(0, p - 1), min_size=n, max_size=n))
+                    if draw(st.integers(0, 5)) > 0:
+                        c[-1] = c[-1] or 1
+                    rec[r][key] = c
         if name == 'gcdext' and not rec['a']['c'] and not rec['b']['c']:
             rec['b'] = draw(_spoly(p, minlen=1, maxlen=mg))
-        if draw(st.booleans()) and len(rec['a']['c']) and len(rec['b']['c']):
+        if mode == 'planted' and len(rec['a']['c']) and len(rec['b']['c']):
             # plant a common factor so that the gcd is non-trivial
             poly = GFpX(p)
             g = draw(_coefs(p, draw(st.integers(1, 3)), nonzero=True))
@@ -409,8 +430,28 @@ def _config(draw):
 @st.composite
 def _known_case(draw, p):
     """A single record inside a known-finding class (kept out of the main search, counted separately)."""
-    which = draw(st.sampled_from(['F38a', 'F38b', 'F38c', 'F38d', 'F38e', 'F38f']))
+    if p == 2:
+        which = 'F38h'
+    elif p < 61:
+        which = draw(st.sampled_from(['F38a', 'F38j']))
+    elif p <= 257:
+        which = draw(st.sampled_from(['F38a', 'F38b', 'F38c', 'F38d', 'F38e', 'F38f', 'F38j']))
+    else:
+        which = draw(st.sampled_from(['F38a', 'F38b', 'F38c', 'F38f', 'F38j']))
     e = {'c': [], 'alt': [], 's': 0}
+    if which == 'F38h':
+        return {'op': 'eq_pub', 'a': draw(_spoly(p, maxlen=4)), 'pb': draw(_ppoly(p, maxlen=4, nonzero=True))}
+    if which == 'F38j':
+        n = draw(st.integers(2, 5))
+        a = draw(_spoly(p, minlen=n, maxlen=n))
+        x = min(p - 1, 2**62) if p > 2**40 else p - 1
+        n_needed = 2
+        while x >= 2 and x ** (n_needed - 1) < 2**63:
+            n_needed += 1
+        if x < 2 or n_needed > 8:
+            return {'op': 'getitem', 'a': a, 'n': len(a['c'])}     # class F38j is empty for this p: F38a instead
+        a = draw(_spoly(p, minlen=n_needed, maxlen=n_needed))
+        return {'op': 'call_pub', 'a': a, 'x': [x, draw(_coef(p))], 'xs': 0}
     if which == 'F38a':
         a = draw(_spoly(p, maxlen=5))
         return {'op': 'getitem', 'a': a, 'n': len(a['c']) + draw(st.integers(0, 3))}
@@ -456,7 +497,7 @@ def _case(draw, tier):
     else:
         p = draw(st.sampled_from(BIG_P))
     seed = draw(st.integers(0, 2**32))
-    if 61 <= p <= 257 and draw(st.integers(0, 39)) == 0:
+    if m <= 3 and draw(st.integers(0, 99)) == 0:
         return {'m': m, 't': t, 'prss': prss, 'seed': seed, 'p': p, 'ops': [draw(_known_case(p))]}
     small_len = m >= 3
     ring = [n for n, v in OPS.items() if v[1] == 'ring']
@@ -482,6 +523,8 @@ def _case(draw, tier):
             ops.append(draw(_gen_record(p, m, heavy, small_len or kind == 'big')))
         elif extra == 'irr' and p <= 257 and m <= 3:
             ops.append(draw(_gen_record(p, m, ['is_irreducible'], small_len)))
+    clean = [r for r in ops if known_class(r, p) is None]
+    ops = clean or ops[:1]      # records of a known-finding class never share a case with other records
     return {'m': m, 't': t, 'prss': prss, 'seed': seed, 'p': p, 'ops': ops}
 
 
@@ -663,6 +706,8 @@ def run_case(case):
             manner = out.detail.startswith('is_irreducible') and 'got 0, gfpx gives 1' in out.detail
         elif fid == 'F38f':
             manner = out.detail.startswith('does not terminate')
+        elif fid == 'F38j':
+            manner = out.detail.startswith('call_pub') or ('run did not complete' in out.detail and 'TypeError' in out.detail)
         elif fid == 'F38h':
             manner = 'run did not complete' in out.detail and 'TypeError' in out.detail
         elif fid == 'F38g':
@@ -691,7 +736,7 @@ def _run_case(case):
     sim = simmod.Sim(m, t, prss=case['prss'], seed=case['seed'], schedule={'mode': 'fast'}, sec_param=30,
                      numpy=True)
     f38f = any(known_class(rec, p) == 'F38f' for rec in case['ops'])
-    sim.MAX_STEPS = 150_000 if f38f else 1_000_000
+    sim.MAX_STEPS = 60_000 if f38f else 1_000_000
     try:
         res = sim.run_programs(_make_prog(case))
     except Exception:
@@ -707,12 +752,30 @@ def _run_case(case):
         err = ('\n'.join(e[-1500:] for _, e in res.errors[:1])) if res.errors else ''
         return Outcome(False, f'run did not complete: {res.describe()}\n{err}\nops={[r["op"] for r in case["ops"]]}',
                        labels=labels)
+    soft = None
+    poly = GFpX(p)
     for i, rec in enumerate(case['ops']):
         recv = sorted({x % m for x in rec['recv']}) if 'recv' in rec else list(range(m))
         for k, key in enumerate(('c', 'alt')):
             exp = expected[i][k]
             for pid in range(m):
                 got = res.values[pid][i][k]
+                if rec['op'] == 'gcdext' and len(got) == 3 and all(x[0] == 'poly' for x in got) and \
+                        got[0][2] == exp[0][1] and [x[2] for x in got[1:]] != [x[1] for x in exp[1:]]:
+                    # F38i: correct gcd, Bezout coefficients differ from gfpx's: a valid but unreduced pair?
+                    g, u, v = (poly(list(x[2])) for x in got)
+                    a_, b_ = poly(_trim(rec['a'][key])), poly(_trim(rec['b'][key]))
+                    if u * a_ + v * b_ == g and all(x[1] >= len(x[2]) for x in got):
+                        soft = soft or (f'gcdext [{key}]: Bezout coefficients ({got[1][2]}, {got[2][2]}) satisfy u*a + v*b = g but '
+                                        f'differ from gfpx ({exp[1][1]}, {exp[2][1]}); rec={rec} p={p} m={m} t={t}')
+                        continue
+                if rec['op'] == 'invert' and len(got) == 1 and got[0][0] == 'poly' and got[0][2] != exp[0][1]:
+                    u = poly(list(got[0][2]))
+                    a_, b_ = poly(_trim(rec['a'][key])), poly(_trim(rec['b'][key]))
+                    if (u * a_ - 1) % b_ == 0 and got[0][1] >= len(got[0][2]):
+                        soft = soft or (f'invert [{key}]: {got[0][2]} is an inverse of a modulo b but not the reduced one gfpx '
+                                        f'returns {exp[0][1]} (same root as gcdext); rec={rec} p={p} m={m} t={t}')
+                        continue
                 if len(got) != len(exp):
                     return Outcome(False, f'{rec["op"]}: {len(got)} results, expected {len(exp)}; rec={rec}', labels=labels)
                 for j, ((kind, val), (gk, ln, gv)) in enumerate(zip(exp, got)):
@@ -734,4 +797,6 @@ def _run_case(case):
         if l0 != l1:
             return Outcome(False, f'{rec["op"]}: len() of results depends on secret values: {l0} vs {l1}; rec={rec} p={p}',
                            labels=labels)
+    if soft:
+        return Outcome(False, soft, labels=labels + ['F38i'], known='F38i')
     return Outcome(True, labels=labels, nontrivial=_nontrivial(case))
